@@ -149,10 +149,15 @@ def generate_dispatch(ov, arganal):
     calls = []
     if spo or po:
         req = len(spr + pr)
+        npos = len(spr + spo + pr + po)
+        # Keyword arguments are passed along no matter how many optional
+        # positional arguments were omitted
+        kw_lookup = lookup[npos:]
+        kw_posargs = posargs[npos + 1 :]
         for i, arg in enumerate(spo + po):
             call = call_template.format(
-                lookup=join(lookup[: req + i], trail=True),
-                posargs=join(posargs[: req + i + 1]),
+                lookup=join(lookup[: req + i] + kw_lookup, trail=True),
+                posargs=join(posargs[: req + i + 1] + kw_posargs),
                 mvar=mv,
             )
             call = textwrap.indent(call, "        ")
